@@ -418,6 +418,10 @@ def run(rep, ix, tier):
     check_text_length(rep, ix)
     check_cell_types(rep, ix)
     rep.floor('R-C08-CELLTYPE', 1)
+    # padded physical records are read with the settings the caller chose: rule of C20
+    from . import C20
+    C20.pad_binding(rep, ix, 'R-C20-BIND')
+    rep.floor('R-C20-BIND', 2)
     rep.floor('R-C08-TEXTLEN', 7)
     rep.floor('R-C08-WRITABLE', 18)
     rep.floor('R-C08-PREAMBLE', 11)
@@ -459,6 +463,25 @@ def check_cell_types(rep, ix):
                         if names & {'TypeError', 'Exception', 'BaseException'}:
                             guarded = guarded or f'except {sorted(names)}'
                 child, node = node, getattr(node, '_parent', None)
+            if guarded is not None and guarded.startswith('except'):
+                # relying on the TypeError: then the constructor must let an int / float fall through to an operation that raises
+                # TypeError - bytes(n) of an int is an allocation of n zero bytes (ValueError if negative), not a refusal
+                mi = ix.get_func('TotalDepth.LIS.core.Mnem', 'Mnem.__init__')
+                mp = mi.args.args[1].arg
+                conv = [x for x in common.calls_in(mi) if _n(x.func) in ('bytes', 'bytearray') and len(x.args) == 1 and not x.keywords and _n(x.args[0]) == mp]
+                unsafe = []
+                for x in conv:
+                    tests = []
+                    child, nd = x, getattr(x, '_parent', None)
+                    while nd is not None and nd is not mi:
+                        if isinstance(nd, ast.If) and any(child is b_ or _inside_stmt(child, b_) for b_ in nd.body):
+                            tests.append(_n(nd.test))
+                        child, nd = nd, getattr(nd, '_parent', None)
+                    if not any(t.startswith(f'isinstance({mp},') and 'int' not in t and 'not' not in t for t in tests):
+                        unsafe.append(x)
+                rep.ob('R-C08-CELLTYPE', 'TotalDepth.LIS.core.Mnem:Mnem.__init__', 'a numeric argument is refused with TypeError (it is not turned into bytes)', not unsafe,
+                       found='; '.join(_n(common.stmt_containing(x)) for x in unsafe), required='no bytes(m) / bytearray(m) on an argument that may be an int',
+                       node=unsafe[0] if unsafe else mi, module=ix.module('TotalDepth.LIS.core.Mnem'))
             rep.ob('R-C08-CELLTYPE', f'{L}:LrTable.{f.name}', f'Mnem.Mnem({arg}) on a decoded cell value only when it is bytes', guarded is not None,
                    found=guarded or f'{src} may be an int or a float: len() of it raises TypeError', required='isinstance test on the value, or a TypeError handler',
                    node=c, module=m)
